@@ -1,6 +1,7 @@
 //! wfh: runs correspondence cases against the real wirefilter implementation.
 //! One s-expression case per input line, one canonical result per output line.
 mod c09;
+mod lang;
 mod sexp;
 
 use sexp::Sexp;
@@ -13,6 +14,8 @@ fn dispatch(case: &Sexp) -> Option<Sexp> {
     let args = &l[1..];
     match head {
         "in-int" | "in-ip" | "in-bytes" => c09::run(head, args),
+        "exec" => lang::run_exec(args),
+        "exec-value" => lang::run_exec_value(args),
         _ => None,
     }
 }
